@@ -123,11 +123,20 @@ fn judge_build(build: Build, sc: &Scenario, mut st: Option<&mut Stats>) -> Optio
                 let structure = lx.as_ref().and_then(|lx| lx.value.map(|v| (v, xor(lx.body(&l.bytes)))));
                 match (out, structure) {
                     (Outcome::Complete(..) | Outcome::Incomplete(..), None) => {
-                        // accepted although the delimiter/'*'/hex structure is not there:
-                        // that is the sentence grammar's business (C08), not the gate's
+                        // Accepted although there is no start delimiter, no '*' after it or no
+                        // hex digit after that: "accepted only if the XOR ... equals the
+                        // hexadecimal value that follows that '*'" cannot hold where no such value
+                        // exists. (My first version handed this case to C08, which nobody claims
+                        // here - a hole an independent review of the oracles demonstrated with a
+                        // change that accepts sentences without '*hh'.)
                         if let Some(st) = stg.as_deref_mut() {
-                            st.unscoped += 1;
+                            st.judged += 1;
                         }
+                        result = Some(fail(
+                            "accepted-without-checksum",
+                            "accepted although the line has no start delimiter followed by '*' and a hexadecimal value".to_string(),
+                        ));
+                        return false;
                     }
                     (Outcome::Complete(..) | Outcome::Incomplete(..), Some((v, x))) => {
                         if let Some(st) = stg.as_deref_mut() {
